@@ -71,20 +71,42 @@ def run(ctx):
               where=loc(mn, call) if call is not None else None)
     env = local_env(mn.node)
     e = {norm(n.targets[0]): norm(n.value) for n in walk_no_nested(mn.node) if isinstance(n, ast.Assign)}
-    ok = e.get("data") == "np.zeros(pck.grid_sizes[pck.limit_level], dtype=args.dtype)"
-    ctx.check(ok, f"{P}.BUFFER", mn.site, "the grid is np.zeros of the limit level's size with the requested dtype",
-              f"buffer is {e.get('data')}")
+    denv = rules.local_env(mn.node)
+    dbuf = formulas.find_assign(mn, "data")
+    got_buf = rules.deep(dbuf.value, denv, mn.params) if dbuf is not None else None
+    ctx.check(got_buf == "np.zeros(pck.grid_sizes[pck.limit_level], dtype=args.dtype)", f"{P}.BUFFER", mn.site,
+              "the grid is np.zeros of the limit level's size with the requested dtype",
+              f"buffer is {got_buf} (locals substituted); expected np.zeros(pck.grid_sizes[pck.limit_level], "
+              f"dtype=args.dtype)", semantic=dbuf is not None)
     ok = e.get("FIELD_INDEX") == "pck.fields[args.variable]" and e.get("N_FIELDS") == "len(pck.fields)"
     ctx.check(ok, f"{P}.WIRING", mn.site, "field index and field count come from the header's field table",
               f"FIELD_INDEX = {e.get('FIELD_INDEX')}, N_FIELDS = {e.get('N_FIELDS')}", key="field")
     formulas.formula_rule(ctx, f"{P}.FACTOR", mn, formulas.find_assign(mn, "factor").value if formulas.find_assign(mn, "factor") else None,
                           A(f"pow(2,{A('pck.limit_level') - A('lv')})"), (), "refinement factor to the limit level", "factor", {})
     # tasks: each file of the level exactly once
-    ok = e.get("binfiles") == "np.unique(pck.cells[lv]['files'])" and e.get("read_order") == "np.flip(np.argsort(sizes))" and \
-        e.get("sizes") == "np.array([os.path.getsize(f) for f in binfiles])" and \
-        e.get("mp_inputs") == "[{'N_FIELDS': N_FIELDS, 'FIELD_INDEX': FIELD_INDEX, 'fname': binfiles[i]} for i in read_order]"
+    U = "np.unique(pck.cells[lv]['files'])"
+    PERM = f"np.flip(np.argsort(np.array([os.path.getsize(f) for f in {U}])))"
+    mi = formulas.find_assign(mn, "mp_inputs")
+    form = None
+    if mi is not None and isinstance(mi.value, ast.ListComp) and len(mi.value.generators) == 1 \
+            and not mi.value.generators[0].ifs and isinstance(mi.value.elt, ast.Dict) \
+            and isinstance(mi.value.generators[0].target, ast.Name):
+        g = mi.value.generators[0]
+        v = g.target.id
+        fn = [val for k, val in zip(mi.value.elt.keys, mi.value.elt.values) if isinstance(k, ast.Constant) and k.value == "fname"]
+        keys = sorted(k.value for k in mi.value.elt.keys if isinstance(k, ast.Constant))
+        if len(fn) == 1:
+            import copy as _copy
+            from checks.tastelib import _BulletSubst
+            fnode = _BulletSubst(v).visit(_copy.deepcopy(fn[0]))
+            form = (rules.deep(fnode, denv, list(mn.params) + ["__BULLET__"]).replace("__BULLET__", "•"),
+                    rules.deep(g.iter, denv, mn.params), tuple(keys))
+    accepted = {(f"{U}[•]", PERM), ("•", f"{U}[{PERM}]"), ("•", U)}
+    ok = form is not None and (form[0], form[1]) in accepted and form[2] == ("FIELD_INDEX", "N_FIELDS", "fname")
     ctx.check(ok, f"{P}.P5b", mn.site, "one task per np.unique(files) of the level (a permutation of them)",
-              f"tasks are built from {e.get('binfiles')} / {e.get('read_order')} / {e.get('mp_inputs')}")
+              f"tasks are built as fname = {form[0] if form else None} for • in {form[1] if form else None} with keys "
+              f"{form[2] if form else None}; expected every file of {U} exactly once (any permutation of it)",
+              semantic=form is not None)
     sites = pools.find_sites(prog, mn)
     ctx.check(len(sites) == 1, f"{P}.POOL", mn.site, "one pool call", f"{len(sites)} pool calls")
     for s in sites:
@@ -108,13 +130,25 @@ def run(ctx):
         loop = s.consumer[2]
         st = [n for n in ast.walk(loop) if isinstance(n, ast.Assign) and isinstance(n.targets[0], ast.Subscript)
               and norm(n.targets[0].value) == "data"]
+        # the loop that pairs index ranges with arrays: `for idx, arr in zip(R0, R1)` or `for (lo, hi), arr in ...`
+        zl = [n for n in ast.walk(loop) if isinstance(n, ast.For) and isinstance(n.iter, ast.Call)
+              and norm(n.iter.func) == "zip" and len(n.iter.args) == 2 and isinstance(n.target, ast.Tuple)
+              and len(n.target.elts) == 2]
+        alias = {}
+        if len(zl) == 1 and isinstance(zl[0].target.elts[0], ast.Tuple) and len(zl[0].target.elts[0].elts) == 2 \
+                and all(isinstance(x, ast.Name) for x in zl[0].target.elts[0].elts):
+            a0, a1 = zl[0].target.elts[0].elts
+            alias = {a0.id: ast.parse("idx[0]", mode="eval").body, a1.id: ast.parse("idx[1]", mode="eval").body}
+        elif len(zl) == 1 and isinstance(zl[0].target.elts[0], ast.Name) and zl[0].target.elts[0].id != "idx":
+            alias = {zl[0].target.elts[0].id: ast.parse("idx", mode="eval").body}
+        arrname = norm(zl[0].target.elts[1]) if len(zl) == 1 else "arr"
         ok = len(st) == 1 and isinstance(st[0].targets[0].slice, ast.Tuple) and len(st[0].targets[0].slice.elts) == 3 and \
-            norm(st[0].value) == "expand_array3d(arr, factor)"
+            norm(st[0].value) == f"expand_array3d({arrname}, factor)"
         if ok:
             f = A("factor")
             for ax, sl in enumerate(st[0].targets[0].slice.elts):
                 try:
-                    lo, hi = expr_ratio(sl.lower, {}), expr_ratio(sl.upper, {})
+                    lo, hi = expr_ratio(sl.lower, alias), expr_ratio(sl.upper, alias)
                 except (FormulaError, AttributeError):
                     ok = False
                     continue
@@ -122,12 +156,23 @@ def run(ctx):
                 ctx.check(okk, f"{P}.DIM-COH", mn.site,
                           f"axis {ax} of the grid spans factor*idx_lo[{ax}] .. (idx_hi[{ax}]+1)*factor",
                           f"axis {ax} of the grid is stored over {norm(sl)}: it must use dimension {ax} of the box's "
-                          f"index range on both bounds", key=f"axis{ax}", where=loc(mn, st[0]))
+                          f"index range on both bounds", key=f"axis{ax}", where=loc(mn, st[0]), semantic=True)
         ctx.check(ok, f"{P}.STORE", mn.site, "each box is replicated by factor and stored over its own index span",
                   f"store is {[norm(x) for x in st]}", key="store")
-        zl = [n for n in ast.walk(loop) if isinstance(n, ast.For) and norm(n.iter) == "zip(res[0], res[1])"]
-        ctx.check(len(zl) == 1 and norm(zl[0].target) == "(idx, arr)", f"{P}.SELF-DESCRIBING", mn.site,
-                  "index ranges and arrays of one result are paired positionally", "result pairing changed", key="pair")
+        # the two zipped sequences are component 0 (index ranges) and component 1 (arrays) of *one* result
+        pair_ok = False
+        if len(zl) == 1:
+            z0, z1 = norm(zl[0].iter.args[0]), norm(zl[0].iter.args[1])
+            rt = loop.target if isinstance(loop, ast.For) else None
+            if isinstance(rt, ast.Name):
+                pair_ok = (z0, z1) == (f"{rt.id}[0]", f"{rt.id}[1]")
+            elif isinstance(rt, ast.Tuple) and len(rt.elts) == 2:
+                pair_ok = (z0, z1) == (norm(rt.elts[0]), norm(rt.elts[1]))
+        ctx.check(pair_ok, f"{P}.SELF-DESCRIBING", mn.site,
+                  "index ranges (component 0) and arrays (component 1) of one result are paired positionally",
+                  f"the placement loop zips {[norm(z.iter) for z in zl]} for results bound to "
+                  f"{norm(loop.target) if isinstance(loop, ast.For) else None}: positions must come from the same "
+                  f"result as the arrays", key="pair", semantic=len(zl) == 1)
     formulas.rule_level_range(ctx, f"{P}.LEVEL-RANGE", mn, obj="pck")
     ex = prog.func("amr_kitchen/utils.py", "expand_array3d", P)
     r = [norm(n.value) for n in walk_no_nested(ex.node) if isinstance(n, ast.Return)]
